@@ -4,7 +4,8 @@ PROP = {
     "gen_modules": ["ChunkTables", "Consts", "EpochRecovery"],
     "oracle_prefix": "C13",
     "streams": [{"name": "broker", "harness": "umh_broker", "driver": "broker",
-                 "timeout": {"quick": 900, "thorough": 9000}}],  # the shared thorough stream needs ~15 min unloaded, far more when
+                 "timeout": {"quick": 900, "thorough": 6000}},
+                {"name": "recover", "harness": "umh_recover", "driver": "broker"}],  # the shared thorough stream needs ~15 min unloaded, far more when
                                                                  # several broker checks run concurrently
     "search_s": 300,
     "assumptions": [
@@ -19,8 +20,7 @@ PROP = {
         "re-convergence ('after the next sync rounds all reachable proxies adopt the recovered view and the routing "
         "guarantees hold again') is not proved here: it needs the proxy acceptance rule (C05) and the coordinator "
         "rounds (C07); this check delivers their premise (every served epoch > E, BrokerInv carried over)",
-        "the production TCP path of fetch_max_epoch is not exercised by the stream: the harness calls "
-        "MetaStore::recover_epoch directly; the two '+ 1' of the service/storage layers enter through generated constants",
+        "re-convergence after recovery is proved in C07 (C07_reconverge_after_recovery)",
     ],
     "trusted": [
         "hand-written transliteration of MetaStore::recover_epoch / force_bump_all_epoch (UmModel/Broker.lean, "
